@@ -52,7 +52,7 @@ def judge(prog: Program, ref: dict[str, Any], run: dict[str, Any]) -> list[dict[
         problems.append(("does-not-complete", f"did not quiesce: {run['res'].aborted}", "noquiesce"))
     else:
         for c, m in compare_outcome(prog, ref, run):
-            problems.append((c, m, c))
+            problems.append((c.split(":")[0], m, c))
         if run["fs"]["queue"] or run["fs"]["dlq"]:
             problems.append(("stranded-messages", f"queue={run['fs']['queue']} dlq={run['fs']['dlq']}", "stranded"))
     for x in check_ledger_unique(run["h"], "C02"):
